@@ -1,4 +1,5 @@
 import PyemvProofs.TlvReencode
+import PyemvProofs.TlvReencode2
 import PyemvProps.C10
 /-!
 # C18 — decoded TLV re-encodes stably; flatten and convert are views of one parse
@@ -62,14 +63,47 @@ error, dictionaries related by `mapDict conv`) -/
 theorem convert_natural {α} (conv : Bytes → Bytes → α) (fl si : Bool) (x : Bytes) :
     SimRel conv (decode fl si x) (decodeC conv fl si x) := decodeC_sim conv fl si x
 
-/-- re-encoding, general case — **partial**.  Full statement (kept visible, not proved here): for every
-decodable `x`, `encode si (treeOfDict (decode si x))` succeeds, decodes to the same tree again and is no
-longer than `x`.  Proved: the canonical case above (`reencode_canonical`) and, for every tree the encoder
-accepts, the round trip of C10.  The general case needs an invariant of decoded dictionaries (every key a
-valid tag whose bit 6 matches the node kind, simple-mode lengths ≤ 255 after de-duplication) that is only
-tied differentially: the harness checks the three equations on the real code for every decodable input of
-the C09 enumeration and generators. -/
-theorem reencode_partial (si : Bool) (t : List (PyStr × PyVal)) (b : Bytes) (h : encode si t = .ok b)
+/-- **every decodable input re-encodes stably** (the general case, at full strength): for every byte string
+`x` the decoder accepts, in either mode, encoding the decoded tree succeeds, the result decodes to the same
+tree again (same keys, same order, same values), and it is no longer than `x`.  Non-minimal length fields and
+repeated tags in `x` are covered: the proof goes through an invariant of decoded dictionaries
+(`Tlv.Good`: distinct keys, each a valid tag whose bit 6 matches the node kind, sizes expressible in the
+mode's length field) that decoding establishes (`absNested_good`, over the sound parse `parse_sound`) and
+under which the canonical CST of the dictionary is well-formed, canonical and folds back to it. -/
+theorem reencode (si : Bool) (x : Bytes) (o : Nat) (d : Dict) (h : decode false si x = .ok o d) :
+    ∃ e, encode si (treeOfDict d) = .ok e ∧ decode false si e = .ok e.length d ∧ e.length ≤ x.length := by
+  obtain ⟨items, hp, hd⟩ := parse_of_decode false si x o d h
+  obtain ⟨hx, hwf⟩ := parse_sound si x.length x 0 items (Nat.le_refl _) hp
+  have hd' : d = absNested [] items := by simpa [absInto] using hd
+  obtain ⟨good, size⟩ := absNested_good si (printItems items).length items [] (Nat.le_refl _) hwf Good.nil
+  rw [← hd', encSize_nil, Nat.zero_add, ← hx] at size
+  rw [← hd'] at good
+  obtain ⟨w, c, _, tr, ab⟩ := good_items si d good
+  have henc : encode si (treeOfDict d) = .ok (printItems (itemsOfDict si d)) := by
+    rw [← tr]; exact encode_treeOfItems si _ w c
+  have hback : absNested [] (itemsOfDict si d) = d := by
+    have := ab [] (by intro p hp'; cases hp')
+    simpa using this
+  have hp2 : parseItems si 0 (printItems (itemsOfDict si d)) = .ok (itemsOfDict si d) :=
+    parse_print si _ _ 0 (Nat.le_refl _) w
+  obtain ⟨o', ho'⟩ := (C09.decode_ok_iff false si (printItems (itemsOfDict si d)) d).mpr
+    ⟨itemsOfDict si d, hp2, by simp [absInto, hback]⟩
+  have hlen : o' = (printItems (itemsOfDict si d)).length := by
+    rcases C09.decode_total false si (printItems (itemsOfDict si d)) with ⟨d', hd''⟩ | ⟨e, d', hd''⟩
+    · rw [hd''] at ho'; cases ho'; rfl
+    · rw [hd''] at ho'; cases ho'
+  subst hlen
+  exact ⟨_, henc, ho', size⟩
+
+/-- non-vacuity: an input with a padded length field and a repeated tag decodes, and its tree re-encodes to
+a shorter canonical string -/
+example : decode false false [0x9C, 0x81, 0x01, 0x07, 0x9C, 0x01, 0x08] = .ok 7 [([0x9C], .prim [0x08])] ∧
+    encode false (treeOfDict [([0x9C], Node.prim [0x08])]) = .ok [0x9C, 0x01, 0x08] := by
+  constructor <;> rfl
+
+/-- the encoder side of the same fact, for trees that do not come from the decoder: whatever the encoder
+accepts decodes to the fold of its mirror CST. -/
+theorem encoded_decodes_to_mirror (si : Bool) (t : List (PyStr × PyVal)) (b : Bytes) (h : encode si t = .ok b)
     (hlen : si = false → b.length < 256 ^ 127) :
     ∃ items, Mirror si t items ∧ decode false si b = .ok b.length (absInto false [] items) := by
   obtain ⟨items, e, m, w⟩ := encodeItems_ok si t b h hlen
